@@ -130,6 +130,8 @@ func checkC18(c *Ctx, r *Report) {
 		r.add("C18.a", "guardedby", "packages-facade:only-glob-matched-files-are-sources", "the glob-matched files are kept as a set and each is a source once", nil, nil, "the glob-matched set (a map keyed by absolute path) was not found in initWithGlobs")
 	}
 	checkStatusCodeClasses(c, r, "C18.d")
+	// the file a diagnostic names comes from the per-file version record: that memo is keyed by the file itself
+	checkMemoKeys(c, r, "C18.c")
 	const lv = "(core/validators.AnnotationLinkValidator).Validate"
 	if fi := need(c, r, "C18.a", lv); fi != nil {
 		viol := ""
